@@ -4,7 +4,8 @@
  * leaf (4-byte payload), ALG = algorithm of the inner nodes, REFUSE = -1 (every leaf acceptable) or the position
  * in the sequence of the one additional leaf that the reference says must be refused.
  * Symbolic: all leaf digests / payload bytes, every leaf level 0..255, builder->maxTreeLevel (MAXMODE 0: any
- * short, <= 0 means no limit; 1: no limit; 2: 1..255).
+ * short, <= 0 means no limit; 1: no limit; 2: 1..255; 3: the concrete value MAXVAL).
+ * With LEVELS={...} the leaf levels are concrete per instance (H-2b only, see below).
  *
  * H-1 (REFUSE = -1): assuming that the REFERENCE (c16_ref.h) accepts every leaf, every add returns KSI_OK and a
  *   handle; KSI_TreeBuilder_close succeeds iff the reference root level is <= 255; then root hash and level
@@ -13,8 +14,12 @@
  *   and level, ends at exactly the root imprint and root level; a further add after close is refused.
  * H-2 (REFUSE = r): the leaf at position r is not acceptable according to the reference (would-be root level above
  *   maxTreeLevel, or a carry join above level 255), all others are: that add returns an error and no handle,
- *   with CBMC's pointer / double-free / deallocated-object checks on, and afterwards (possibly after more
- *   accepted leaves) the tree closes to the reference root of the accepted leaves with valid chains for all.
+ *   with CBMC's pointer / double-free / deallocated-object checks on.
+ *   H-2a (STOP_AFTER_REFUSAL, all levels symbolic): the decision and the memory safety of the refused add.
+ *   H-2b (LEVELS concrete per instance, digests symbolic): afterwards, possibly after more accepted leaves,
+ *   the tree closes to the reference root of the accepted leaves with valid chains for all of them, or close
+ *   fails iff the reference root level leaves 0..255.  (The split is forced by CBMC: a refusal whose outcome
+ *   is symbolic leaves a merged success/failure state behind on which everything later explodes.)
  * Never calls KSI_TreeBuilder_free (DESIGN C16 engineering note).
  * While the reference says an operation must succeed, error exits of tree_builder.c are observed and cut
  * (VERIF_expect_no_error, see env/ctx_expect.c and common/c16_instr.h). */
@@ -50,6 +55,9 @@
 #define NADDS (NLEAVES + (REFUSE >= 0 ? 1 : 0))
 
 static const int kinds[10] = KINDS;
+#ifdef LEVELS
+static const int conc_levels[10] = LEVELS;
+#endif
 
 /* the accepted leaves, in order */
 static struct c16_val leafv[NLEAVES];
@@ -129,6 +137,8 @@ void harness(void) {
 	short maxl;
 #if MAXMODE == 1
 	maxl = 0;
+#elif MAXMODE == 3
+	maxl = MAXVAL;              /* concrete limit (H-2b) */
 #else
 	maxl = (short)ND(u16, maxlevel);
 #if MAXMODE == 2
@@ -145,7 +155,11 @@ void harness(void) {
 	for (unsigned i = 0; i < NADDS; i++) {
 		/* ---- a fresh symbolic leaf ---- */
 		struct c16_val v; KSI_DataHash *hsh = NULL; KSI_MetaData *md = NULL;
+#ifdef LEVELS
+		int level = conc_levels[i];                                    /* concrete per instance (H-2b) */
+#else
 		int level = ND(int, level); ASSUME(level >= 0 && level <= 255);
+#endif
 		unsigned kind = (unsigned)kinds[i];
 		v.level = (unsigned)level;
 		for (unsigned k = 0; k < C16_VMAX; k++) v.b[k] = 0;
@@ -176,11 +190,15 @@ void harness(void) {
 		if (must_refuse) {
 			CHECK(res != KSI_OK, "C16.H2 a leaf beyond the maximum level or beyond level 255 is refused");
 			CHECK(h == NULL, "C16.H2 no handle is returned for a refused leaf");
-#if REFUSE >= 0 && MAXMODE != 1
+			/* which witness points are reachable depends on the instance; the plan generator says so (WIT_*) */
+#ifdef WIT_REFUSE_LIMIT
 			if (!limit_ok) WITNESS_POINT("leaf refused because of maxTreeLevel");
 #endif
-#if REFUSE >= 0 && (REFUSE % 2) == 1 && MAXMODE != 2
-			if (limit_ok && level < 255) WITNESS_POINT("leaf refused because a carry join would exceed level 255");
+#ifdef WIT_REFUSE_CARRY
+			if (limit_ok) WITNESS_POINT("leaf refused because a carry join would exceed level 255");
+#endif
+#ifdef STOP_AFTER_REFUSAL
+			return;      /* H-2a: the decision and the memory safety of the refused add itself, all levels symbolic */
 #endif
 		} else {
 			CHECK(res == KSI_OK, "C16.H1 an acceptable leaf is accepted");
@@ -248,7 +266,7 @@ void harness(void) {
 #else
 	WITNESS_POINT("single leaf tree closed");
 #endif
-#else
+#elif defined(WIT_CLOSE_OK)
 	WITNESS_POINT("tree closed after a refusal, earlier proofs valid");
 #endif
 }
